@@ -23,6 +23,7 @@
 #include "Matrix/MatrixFactory.hpp"
 #include "Matrix/NF_Triplet.hpp"
 #include "Matrix/LinkMatrixSparse.hpp"
+#include "csparse_d.h"
 #include "LinearOp/CholeskyDense.hpp"
 #include "LinearOp/CholeskySparse.hpp"
 #include "Basic/VectorNumT.hpp"
@@ -95,7 +96,7 @@ struct Sink
   {
     stepNo++;
     if (stepNo <= resumeStep) return false;
-    if (muted && muted->count(k) && muted->at(k) >= 12) { outc["skipped-after-repeated-crash:" + k]++; return false; }
+    if (muted && muted->count(k) && muted->at(k) >= 2) { outc["skipped-after-repeated-crash:" + k]++; return false; }
     key = k;
     shm->stepNo = stepNo;
     size_t n = std::min(k.size(), sizeof(shm->key) - 1);
@@ -419,7 +420,9 @@ static AMatrix* build(int s, const Ref& a)
   }
   NF_Triplet t;
   for (int i = 0; i < a.r; i++) for (int j = 0; j < a.c; j++) if (a(i, j) != 0) t.add(i, j, (double)a(i, j));
-  t.force(a.r, a.c);
+  // NF_Triplet::force() adds its fictitious (r-1,c-1,0.) entry even when that corner is already present, which leaves a
+  // duplicate entry in the cs storage (judged separately in part triplet_force): only force when the corner is empty.
+  if (a(a.r - 1, a.c - 1) == 0) t.force(a.r, a.c);
   return MatrixSparse::createFromTriplet(t, a.r, a.c, s == SPE ? 1 : 0);
 }
 static AMatrix* buildZero(int s, int r, int c) { return build(s, Ref(r, c)); }
@@ -437,7 +440,11 @@ static Got readMat(const AMatrix* m)
   {
     if (sp->isFlagEigen()) { ir = (int)sp->_eigenMatrix.rows(); ic = (int)sp->_eigenMatrix.cols(); }
     else if (sp->_csMatrix == nullptr) { g.ok = false; g.err = "cs storage is a null pointer"; return g; }
-    else { ir = cs_get_nrow(sp->_csMatrix); ic = cs_get_ncol(sp->_csMatrix); }
+    else
+    {
+      ir = cs_get_nrow(sp->_csMatrix); ic = cs_get_ncol(sp->_csMatrix);
+      if (sp->_csMatrix->x == nullptr) { g.ok = false; g.err = "the cs storage has lost its array of values (x == NULL, pattern only)"; return g; }
+    }
   }
   else if (de != nullptr) { ir = (int)de->_eigenMatrix.rows(); ic = (int)de->_eigenMatrix.cols(); }
   if (ir != g.r || ic != g.c)
@@ -554,7 +561,17 @@ static std::vector<Ref> structured(bool thorough)
 // =====================================================================================================
 // unary operations on one content, in every storage
 // =====================================================================================================
-static bool csPresent(const Ref& a, int i, int j) { return a(i, j) != 0 || (i == a.r - 1 && j == a.c - 1); }
+// With the cs back-end an entry that is not stored cannot be assigned (documented: message + nothing done): the stored
+// pattern is asked to the real object.
+static std::vector<char> g_csPattern;
+static void csPatternOf(const Ref& a)
+{
+  MatrixSparse* m = dynamic_cast<MatrixSparse*>(build(SPC, a));
+  g_csPattern.assign((size_t)a.r * a.c, 0);
+  for (int i = 0; i < a.r; i++) for (int j = 0; j < a.c; j++) g_csPattern[(size_t)i * a.c + j] = m->_isElementPresent(i, j) ? 1 : 0;
+  delete m;
+}
+static bool csPresent(const Ref& a, int i, int j) { return g_csPattern[(size_t)i * a.c + j] != 0; }
 
 static void unaryOps(Sink& S, const Ref& A, bool wide)
 {
@@ -565,6 +582,7 @@ static void unaryOps(Sink& S, const Ref& A, bool wide)
     if (!canHold(s, A)) continue;
     const std::string sn = std::string("[") + stName[s] + "]";
     S.outcome(std::string("storage:") + stName[s]);
+    if (s == SPC) csPatternOf(A);
     // ---- element access --------------------------------------------------------------------------
     S.run(K(s, "build-read", sh), [&] { AMatrix* m = build(s, A); expectMat(S, m, A, sn + " setValue/getValue round trip" + in); delete m; });
     S.run(K(s, "getValues", sh), [&] {
@@ -579,7 +597,10 @@ static void unaryOps(Sink& S, const Ref& A, bool wide)
       }
       delete m;
     });
-    S.run(K(s, "setValues", sh), [&] {
+    bool tzr = true, tzc = true;
+    for (int j = 0; j < c; j++) if (A(r - 1, j) != 0) tzr = false;
+    for (int i = 0; i < r; i++) if (A(i, c - 1) != 0) tzc = false;
+    S.run((s == SPC && (tzr || tzc)) ? std::string("sparse-cs:setValues:trailing-zero-row-or-column") : K(s, "setValues", sh), [&] {
       for (int byCol = 0; byCol < 2; byCol++)
       {
         AMatrix* m = buildZero(s, r, c);
@@ -643,7 +664,7 @@ static void unaryOps(Sink& S, const Ref& A, bool wide)
           AMatrix* m = build(s, A); std::vector<LD> t = mvec(r, 1); m->setDiagonal(toVD(t));
           expectMat(S, m, rdiag(t), sn + " setDiagonal(v): documented as 'all terms set to 0, diagonal = v'" + in); delete m;
         });
-        S.run(K(s, "setDiagonalToConstant", sh), [&] {
+        S.run(K(s, "setDiagonal", sh), [&] {
           AMatrix* m = build(s, A); m->setDiagonalToConstant(3.);
           expectMat(S, m, rdiag(std::vector<LD>(r, 3)), sn + " setDiagonalToConstant(3)" + in); delete m;
         });
@@ -651,7 +672,7 @@ static void unaryOps(Sink& S, const Ref& A, bool wide)
       else S.outcome("excluded:cs-absent-entry(documented)");
     }
     // ---- transposition ----------------------------------------------------------------------------
-    S.run(K(s, "transposeInPlace", sh), [&] { AMatrix* m = build(s, A); m->transposeInPlace(); expectMat(S, m, A.T(), sn + " transposeInPlace()" + in); delete m; });
+    S.run(K(s, "transpose", sh), [&] { AMatrix* m = build(s, A); m->transposeInPlace(); expectMat(S, m, A.T(), sn + " transposeInPlace()" + in); delete m; });
     S.run(K(s, "transpose", sh), [&] { AMatrix* m = build(s, A); AMatrix* t = m->transpose(); expectMat(S, t, A.T(), sn + " transpose()" + in); expectMat(S, m, A, sn + " transpose() must leave the source unchanged" + in); delete t; delete m; });
     // ---- scaling ----------------------------------------------------------------------------------
     S.run(K(s, "prodScalar", sh), [&] {
@@ -668,14 +689,14 @@ static void unaryOps(Sink& S, const Ref& A, bool wide)
       });
     if (s != SYM)
     {
-      S.run(K(s, "scale-row-col", sh), [&] {
-        std::vector<LD> vr = mvec(r), vc = mvec(c, 2);
-        { AMatrix* m = build(s, A); m->multiplyRow(toVD(vr)); expectMat(S, m, rmul(rdiag(vr), A), sn + " multiplyRow(" + vstr(toVD(vr)) + ")" + in); delete m; }
-        { AMatrix* m = build(s, A); m->multiplyColumn(toVD(vc)); expectMat(S, m, rmul(A, rdiag(vc)), sn + " multiplyColumn(" + vstr(toVD(vc)) + ")" + in); delete m; }
-        std::vector<LD> ir(r), icv(c); for (int i = 0; i < r; i++) ir[i] = 1 / vr[i]; for (int j = 0; j < c; j++) icv[j] = 1 / vc[j];
-        { AMatrix* m = build(s, A); m->divideRow(toVD(vr)); expectMat(S, m, rmul(rdiag(ir), A), sn + " divideRow(" + vstr(toVD(vr)) + ")" + in); delete m; }
-        { AMatrix* m = build(s, A); m->divideColumn(toVD(vc)); expectMat(S, m, rmul(A, rdiag(icv)), sn + " divideColumn(" + vstr(toVD(vc)) + ")" + in); delete m; }
-      });
+      std::vector<LD> vr = mvec(r), vc = mvec(c, 2);
+      std::vector<LD> ir(r), icv(c); for (int i = 0; i < r; i++) ir[i] = 1 / vr[i]; for (int j = 0; j < c; j++) icv[j] = 1 / vc[j];
+      // the four dense scalings share one mechanism (rows/columns swapped in AMatrixDense): one key; sparse: one key per method
+      auto kk = [&](const char* op) { return isSparseSt(s) ? K(s, op, sh) : K(s, "scale-row-col", sh); };
+      S.run(kk("multiplyRow"), [&] { AMatrix* m = build(s, A); m->multiplyRow(toVD(vr)); expectMat(S, m, rmul(rdiag(vr), A), sn + " multiplyRow(" + vstr(toVD(vr)) + ")" + in); delete m; });
+      S.run(kk("multiplyColumn"), [&] { AMatrix* m = build(s, A); m->multiplyColumn(toVD(vc)); expectMat(S, m, rmul(A, rdiag(vc)), sn + " multiplyColumn(" + vstr(toVD(vc)) + ")" + in); delete m; });
+      S.run(kk("divideRow"), [&] { AMatrix* m = build(s, A); m->divideRow(toVD(vr)); expectMat(S, m, rmul(rdiag(ir), A), sn + " divideRow(" + vstr(toVD(vr)) + ")" + in); delete m; });
+      S.run(kk("divideColumn"), [&] { AMatrix* m = build(s, A); m->divideColumn(toVD(vc)); expectMat(S, m, rmul(A, rdiag(icv)), sn + " divideColumn(" + vstr(toVD(vc)) + ")" + in); delete m; });
     }
     // ---- products with vectors ----------------------------------------------------------------------
     for (int tr = 0; tr < 2; tr++)
@@ -702,7 +723,7 @@ static void unaryOps(Sink& S, const Ref& A, bool wide)
         for (auto& x : xsR) { VectorDouble y(M.r, 7.); m->prodMatVecInPlace(toVD(x), y, tr); expectVec(S, y, rmv(M, x), sn + " prodMatVecInPlace(x=" + vstr(toVD(x)) + ", y, transpose=" + std::to_string(tr) + ")" + in); }
         delete m;
       });
-      S.run(K(s, "prodMatVecInPlace-span", sh) + ts, [&] {
+      S.run(K(s, "prodMatVecInPlace", sh) + ts, [&] {
         AMatrix* m = build(s, A);
         for (auto& x : xsR)
         {
@@ -779,7 +800,11 @@ static void unaryOps(Sink& S, const Ref& A, bool wide)
         delete m;
       });
     // ---- conversions between storages -------------------------------------------------------------
-    S.run(K(s, "createFromAnyMatrix", sh), [&] {
+    bool trailingZero = true, tz2 = true;
+    for (int j = 0; j < c; j++) if (A(r - 1, j) != 0) trailingZero = false;
+    for (int i = 0; i < r; i++) if (A(i, c - 1) != 0) tz2 = false;
+    trailingZero = trailingZero || tz2;
+    S.run(trailingZero ? std::string("sparse:createFromAnyMatrix:trailing-zero-row-or-column") : K(s, "createFromAnyMatrix", sh), [&] {
       AMatrix* m = build(s, A);
       for (int be = 0; be < 2; be++)
       {
@@ -830,8 +855,8 @@ static void unaryOps(Sink& S, const Ref& A, bool wide)
           {
             std::vector<LD> b = k < r ? evec(r, k) : mvec(r, 1); VectorDouble x(r, 0.);
             int rc = m->solve(toVD(b), x);
-            if (rc != 0) S.bad(sn + " solve() returned " + std::to_string(rc) + " on a non singular matrix" + in);
-            else expectVec(S, x, rmv(inv, b), sn + " solve(b=" + vstr(toVD(b)) + ")" + in, tol, rnorm1(inv) * 4);
+            if (rc != 0) S.badKey(K(s, "solve", sh) + ":return-code", sn + " solve() returned " + std::to_string(rc) + " (error) on a non singular matrix" + in);
+            expectVec(S, x, rmv(inv, b), sn + " solve(b=" + vstr(toVD(b)) + ")" + in, tol, rnorm1(inv) * 4);
           }
           delete m;
         });
@@ -923,8 +948,10 @@ static void prodOps(Sink& S, const Ref& X, const Ref& Y)
       if (!canHold(sx, X) || !canHold(sy, Y)) continue;
       if (mixedBackends(sx, sy)) { S.outcome("excluded:mixed-sparse-back-ends(documented as forbidden)"); continue; }
       const std::string sn = std::string("[") + stName[sx] + "*" + stName[sy] + " " + fl + "]";
-      const std::string kk = std::string("prodMatMat:") + stClass(sx) + "*" + stClass(sy) + ":" + fl + ":" + sh;
-      S.run(kk + ":into-rect", [&] {
+      const bool bothDense = !isSparseSt(sx) && !isSparseSt(sy), bothSparse = isSparseSt(sx) && sx == sy;
+      const std::string tail = ":" + fl + ":" + sh;
+      const bool symForced = (sx == SYM || sy == SYM) && E.r == E.c && !bothSparse;
+      S.run(bothDense ? "prodMatMat:dense-kernel" + tail : "prodMatMat:generic-fallback:" + sh, [&] {
         AMatrix* x = build(sx, X); AMatrix* y = build(sy, Y);
         MatrixRectangular out(E.r, E.c); out.fill(9.);
         out.prodMatMatInPlace(x, y, tX, tY);
@@ -932,14 +959,14 @@ static void prodOps(Sink& S, const Ref& X, const Ref& Y)
         delete x; delete y;
       });
       if (isSparseSt(sx) && sx == sy)
-        S.run(kk + ":into-sparse", [&] {
+        S.run(std::string("prodMatMat:sparse-kernel:") + stClass(sx) + tail, [&] {
           AMatrix* x = build(sx, X); AMatrix* y = build(sy, Y);
           MatrixSparse out(E.r, E.c, sx == SPE ? 1 : 0);
           out.prodMatMatInPlace(x, y, tX, tY);
           expectMat(S, &out, E, sn + " MatrixSparse::prodMatMatInPlace(x,y," + std::to_string(tX) + "," + std::to_string(tY) + ")" + in);
           delete x; delete y;
         });
-      S.run(kk + ":factory", [&] {
+      S.run(symForced ? "prodMatMat:factory:symmetric-operand:" + sh : bothDense ? "prodMatMat:factory:dense" + tail : bothSparse ? std::string("prodMatMat:factory:") + stClass(sx) + ":" + sh : "prodMatMat:generic-fallback:" + sh, [&] {
         AMatrix* x = build(sx, X); AMatrix* y = build(sy, Y);
         AMatrix* out = MatrixFactory::prodMatMat(x, y, tX, tY);
         expectMat(S, out, E, sn + " MatrixFactory::prodMatMat(x,y," + std::to_string(tX) + "," + std::to_string(tY) + ")" + in);
@@ -947,7 +974,7 @@ static void prodOps(Sink& S, const Ref& X, const Ref& Y)
       });
       // x <- x * op(Y)  (the result must fit the storage of x)
       if (!tX && E.r == X.r && E.c == X.c && canHold(sx, E) && !(sx == SPC && sy != SPC))
-        S.run(std::string("prodMatInPlace:") + stClass(sx) + "*" + stClass(sy) + ":" + (tY ? "T" : "N") + ":" + sh, [&] {
+        S.run(std::string("prodMatInPlace:") + (bothDense ? "dense-kernel" : bothSparse ? std::string("sparse-kernel:") + stClass(sx) : "generic-fallback") + ":" + sh, [&] {
           AMatrix* x = build(sx, X); AMatrix* y = build(sy, Y);
           x->prodMatInPlace(y, tY);
           expectMat(S, x, E, sn + " x.prodMatInPlace(y," + std::to_string(tY) + ") (x <- x*op(y))" + in);
@@ -974,7 +1001,7 @@ static void normOps(Sink& S, const Ref& A, const Ref& M, bool withVec)
         if (!canHold(sa, A) || !canHold(sm, M)) continue;
         if (mixedBackends(sa, sm)) continue;
         const std::string sn = std::string("[a:") + stName[sa] + " m:" + stName[sm] + " transpose=" + std::to_string(tr) + "]";
-        S.run(K(sa, "prodNormMatMatInPlace-generic", sh) + ts, [&] {
+        S.run("generic:prodNormMatMatInPlace:" + sh, [&] {
           AMatrix* a = build(sa, A); AMatrix* m = build(sm, M);
           MatrixRectangular out(E.r, E.c); out.fill(9.);
           out.AMatrix::prodNormMatMatInPlace(a, m, tr);
@@ -982,25 +1009,30 @@ static void normOps(Sink& S, const Ref& A, const Ref& M, bool withVec)
           delete a; delete m;
         });
         if (!isSparseSt(sa) && !isSparseSt(sm))
-          S.run(K(sa, "prodNormMatMat-dense", sh) + ts, [&] {
+          S.run("dense:prodNormMatMat:" + sh, [&] {
             AMatrixDense* a = dynamic_cast<AMatrixDense*>(build(sa, A)); AMatrixDense* m = dynamic_cast<AMatrixDense*>(build(sm, M));
             MatrixSquareGeneral* out = prodNormMatMat(a, m, tr);
             expectMat(S, out, E, sn + " prodNormMatMat(dense a, dense m, transpose)" + in);
             delete out; delete a; delete m;
           });
         if (isSparseSt(sa) && sa == sm)
-          S.run(K(sa, "prodNormMatMat-sparse", sh) + ts, [&] {
+        {
+          S.run(std::string(stClass(sa)) + ":prodNormMatMat-free-function:" + sh, [&] {
             MatrixSparse* a = dynamic_cast<MatrixSparse*>(build(sa, A)); MatrixSparse* m = dynamic_cast<MatrixSparse*>(build(sm, M));
             MatrixSparse* out = prodNormMatMat(a, m, tr);
             expectMat(S, out, E, sn + " prodNormMatMat(sparse a, sparse m, transpose)" + in);
-            delete out;
+            delete out; delete a; delete m;
+          });
+          S.run(std::string(stClass(sa)) + ":prodNormMatMatInPlace:" + sh, [&] {
+            MatrixSparse* a = dynamic_cast<MatrixSparse*>(build(sa, A)); MatrixSparse* m = dynamic_cast<MatrixSparse*>(build(sm, M));
             MatrixSparse out2(E.r, E.c, sa == SPE ? 1 : 0);
             out2.prodNormMatMatInPlace(a, m, tr);
             expectMat(S, &out2, E, sn + " MatrixSparse::prodNormMatMatInPlace" + in);
             delete a; delete m;
           });
+        }
         if (M.symmetric() && (sm == SQG || sm == SYM))
-          S.run(K(sa, "normMatrix", sh) + ts, [&] {
+          S.run("sym:normMatrix:" + sh, [&] {
             // MatrixSquareSymmetric::normMatrix(y, x, transpose): t(Y) X Y (transpose=false) or Y X t(Y) (transpose=true)
             AMatrix* a = build(sa, A); AMatrixSquare* m = dynamic_cast<AMatrixSquare*>(build(sm, M));
             MatrixSquareSymmetric out(E.r);
@@ -1023,7 +1055,7 @@ static void normOps(Sink& S, const Ref& A, const Ref& M, bool withVec)
         {
           if (!canHold(sa, A)) continue;
           const std::string sn = std::string("[a:") + stName[sa] + " transpose=" + std::to_string(tr) + " vec=" + vstr(vd) + "]";
-          S.run(K(sa, "prodNormMatVecInPlace-generic", sh) + ts + vs, [&] {
+          S.run("generic:prodNormMatVecInPlace:" + sh, [&] {
             AMatrix* a = build(sa, A);
             MatrixRectangular out(E.r, E.c); out.fill(9.);
             out.AMatrix::prodNormMatVecInPlace(*a, vd, tr);
@@ -1031,21 +1063,21 @@ static void normOps(Sink& S, const Ref& A, const Ref& M, bool withVec)
             delete a;
           });
           if (!isSparseSt(sa))
-            S.run(K(sa, "prodNormMat-dense", sh) + ts + vs, [&] {
+            S.run("dense:prodNormMat" + vs + ":" + sh, [&] {
               AMatrixDense* a = dynamic_cast<AMatrixDense*>(build(sa, A));
               MatrixSquareGeneral* out = prodNormMat(*a, vd, tr);
               expectMat(S, out, E, sn + " prodNormMat(dense a, vec, transpose)" + in);
               delete out; delete a;
             });
           else
-            S.run(K(sa, "prodNormMat-sparse", sh) + ts + vs, [&] {
+            S.run(std::string(stClass(sa)) + ":prodNormMat" + vs + ":" + sh, [&] {
               MatrixSparse* a = dynamic_cast<MatrixSparse*>(build(sa, A));
               MatrixSparse* out = prodNormMat(a, vd, tr);
               expectMat(S, out, E, sn + " prodNormMat(sparse a, vec, transpose)" + in);
               delete out; delete a;
             });
           if (emptyVec)
-            S.run(K(sa, "normMatrix-noX", sh) + ts, [&] {
+            S.run("sym:normMatrix:" + sh, [&] {
               AMatrix* a = build(sa, A);
               MatrixSquareSymmetric out(E.r);
               out.normMatrix(*a, AMatrixSquare(), !tr);
@@ -1292,10 +1324,18 @@ static void vecUnary(Sink& S, const std::vector<double>& v, bool hasTest)
         { VectorDouble x = VD(v); x.add(k); expectVec(S, x, ea, "VectorDouble::add(" + fmt(k) + ")" + in); }
         { VectorDouble x = VD(v); x.subtract(k); expectVec(S, x, es, "VectorDouble::subtract(" + fmt(k) + ")" + in); }
         { VectorDouble x = VD(v); x.multiply(k); expectVec(S, x, em, "VectorDouble::multiply(" + fmt(k) + ")" + in); }
-        { VectorDouble x = VD(v); x.divide(k); expectVec(S, x, ed, "VectorDouble::divide(" + fmt(k) + ")" + in); }
         { VectorDouble x = VD(v); VH::addConstant(x, k); expectVec(S, x, ea, "VH::addConstant(" + fmt(k) + ")" + in); }
         { VectorDouble x = VD(v); VH::multiplyConstant(x, k); expectVec(S, x, em, "VH::multiplyConstant(" + fmt(k) + ")" + in); }
         { VectorDouble x = VD(v); VH::divideConstant(x, k); expectVec(S, x, ed, "VH::divideConstant(" + fmt(k) + ")" + in); }
+      }
+    });
+    S.run("vector:VectorNumT<double>:divide", [&] {
+      for (double k : {2., -1., 0.5})
+      {
+        std::vector<LD> ed; for (double x : v) ed.push_back((LD)x / k);
+        VectorDouble x = VD(v);
+        try { x.divide(k); expectVec(S, x, ed, "VectorDouble::divide(" + fmt(k) + ")" + in); }
+        catch (const char* e) { S.eval(); S.bad("VectorDouble::divide(" + fmt(k) + ") throws '" + e + "' for a non-zero divisor" + in); }
       }
     });
     S.run("vector:VH:norms-product-cumsum", [&] {
@@ -1403,7 +1443,7 @@ static void vecUnary(Sink& S, const std::vector<double>& v, bool hasTest)
       {
         std::vector<double> g; for (int i = 0; i < n; i++) if (!isT(ns[i])) g.push_back(ns[i]);
         std::sort(g.begin(), g.end());
-        for (size_t k = 0; k < g.size(); k++) if (fabs(g[k] + g[g.size() - 1 - k]) > 1e-9) { S.bad("VH::normalScore scores are not symmetric around 0: " + vstr(ns) + in); break; }
+        for (size_t k = 0; k < g.size(); k++) if (fabs(g[k] + g[g.size() - 1 - k]) > 1e-6) { S.bad("VH::normalScore scores are not symmetric around 0: " + vstr(ns) + in); break; }
       }
       else S.outcome("excluded:tie(normalScore symmetry)");
     });
@@ -1420,13 +1460,21 @@ static void vecBinary(Sink& S, const std::vector<double>& a, const std::vector<d
     { VectorDouble x = VD(a); x.add(VD(b)); expectVec(S, x, ea, "VectorDouble::add(b)" + in); }
     { VectorDouble x = VD(a); x.subtract(VD(b)); expectVec(S, x, es, "VectorDouble::subtract(b)" + in); }
     { VectorDouble x = VD(a); x.multiply(VD(b)); expectVec(S, x, em, "VectorDouble::multiply(b)" + in); }
-    if (!zero) { VectorDouble x = VD(a); x.divide(VD(b)); expectVec(S, x, ed, "VectorDouble::divide(b)" + in); } else S.outcome("excluded:division-by-zero");
     chk(S, VD(a).innerProduct(VD(b)), ip, "VectorDouble::innerProduct(b)" + in);
-    S.eval(); if (VD(a).isSame(VD(b)) != (a == b)) S.bad("VectorDouble::isSame wrong" + in);
+  });
+  S.run("vector:VectorNumT<double>:divide", [&] {
+    if (zero) { S.outcome("excluded:division-by-zero"); return; }
+    VectorDouble x = VD(a);
+    try { x.divide(VD(b)); expectVec(S, x, ed, "VectorDouble::divide(b)" + in); }
+    catch (const char* e) { S.eval(); S.bad(std::string("VectorDouble::divide(b) throws '") + e + "' although no divisor is zero" + in); }
+  });
+  S.run("vector:VectorNumT<double>:isSame", [&] {
+    S.eval(); bool g = VD(a).isSame(VD(b));
+    if (g != (a == b)) S.bad(std::string("VectorDouble::isSame(b, eps=1e-10) = ") + (g ? "true" : "false") + in);
   });
   S.run("vector:VH:vector-arithmetic", [&] {
     expectVec(S, VH::add(VD(a), VD(b)), ea, "VH::add" + in);
-    expectVec(S, VH::subtract(VD(a), VD(b)), es, "VH::subtract(a,b) documented a-b?" + in);
+    { std::vector<LD> eb; for (LD q : es) eb.push_back(-q); expectVec(S, VH::subtract(VD(a), VD(b)), eb, "VH::subtract(a,b) documented 'vecb - veca'" + in); }
     { VectorDouble x = VD(a); VH::addInPlace(x, VD(b)); expectVec(S, x, ea, "VH::addInPlace" + in); }
     { VectorDouble x = VD(a); VH::multiplyInPlace(x, VD(b)); expectVec(S, x, em, "VH::multiplyInPlace" + in); }
     if (!zero) { VectorDouble x = VD(a); VH::divideInPlace(x, VD(b)); expectVec(S, x, ed, "VH::divideInPlace" + in); }
@@ -1436,4 +1484,402 @@ static void vecBinary(Sink& S, const std::vector<double>& a, const std::vector<d
     S.eval(); if (VH::isEqual(VD(a), VD(b)) != (a == b)) S.bad("VH::isEqual wrong" + in);
   });
   S.nontrivial(Hash().s("vec2").vd(a).vd(b).h);
+}
+
+// =====================================================================================================
+// thread-count axis (configuration): t = 1..16 on shapes that cross Eigen's parallelisation threshold
+// =====================================================================================================
+static Ref bigMat(int r, int c, int seed, bool sparse)
+{
+  Ref a(r, c);
+  for (int i = 0; i < r; i++) for (int j = 0; j < c; j++)
+  {
+    int h = (i * 31 + j * 17 + seed * 7 + (i * j) % 13) % 11;
+    LD v = (LD)(h % 5) - 2;   // -2..2: every dot product below is exact in double
+    if (sparse && (abs(i - j) > 2 && (i * 3 + j * 5 + seed) % 23 != 0)) v = 0;
+    a(i, j) = v;
+  }
+  return a;
+}
+static int osThreads()
+{
+  FILE* f = fopen("/proc/self/status", "r"); if (!f) return -1;
+  char line[256]; int n = -1;
+  while (fgets(line, sizeof line, f)) if (!strncmp(line, "Threads:", 8)) n = atoi(line + 8);
+  fclose(f); return n;
+}
+static std::string bitsOf(const AMatrix* m) { Got g = readMat(m); Hash h; h.i(g.r).i(g.c); for (double v : g.a) h.d(v); return std::to_string(h.h); }
+
+static void threadOps(Sink& S, int shapeId, bool thorough)
+{
+  static const int shapes[6][3] = {{64, 64, 64}, {7, 64, 5}, {160, 160, 160}, {96, 33, 160}, {250, 120, 90}, {300, 300, 300}};
+  const int r = shapes[shapeId][0], k = shapes[shapeId][1], c = shapes[shapeId][2];
+  Ref X = bigMat(r, k, 1, false), Y = bigMat(k, c, 2, false), Yt = Y.T(), Xt = X.T();
+  Ref XY = rmul(X, Y);
+  Ref SX = bigMat(r, r, 3, true), SY = bigMat(r, r, 4, true), SXY = rmul(SX, SY);
+  Ref Msym(r, r); for (int i = 0; i < r; i++) { Msym(i, i) = 4; if (i) { Msym(i, i - 1) = -1; Msym(i - 1, i) = -1; } if (i > 4) { Msym(i, i - 5) = 1; Msym(i - 5, i) = 1; } }
+  Ref Minv; rinv(Msym, Minv);
+  Ref Xk = bigMat(r, std::min(k, 40), 5, false), Mk = bigMat(Xk.c, Xk.c, 6, false), CG = rmul(rmul(Xk, Mk), Xk.T());
+  std::vector<LD> xv(k); for (int i = 0; i < k; i++) xv[i] = (LD)((i * 7) % 5) - 2;
+  std::vector<LD> xr(r); for (int i = 0; i < r; i++) xr[i] = (LD)((i * 3) % 5) - 2;
+  const std::string sh = std::to_string(r) + "x" + std::to_string(k) + "x" + std::to_string(c);
+  std::map<std::string, std::string> first;   // bitwise result with 1 thread
+  for (int t = 1; t <= 16; t++)
+  {
+    setMultiThread(t);
+    omp_set_num_threads(t);
+    const std::string tn = " threads=" + std::to_string(t) + " shape " + sh;
+    auto same = [&](const std::string& op, const AMatrix* m) {
+      std::string b = bitsOf(m); S.eval();
+      if (t == 1) first[op] = b;
+      else if (first[op] != b) S.badKey("threads:" + op + ":differs-from-1-thread", op + tn + ": result is not bitwise identical to the 1-thread result (exact integer data)");
+    };
+    S.run("threads:dense-prodMatMat", [&] {
+      MatrixRectangular x(r, k), y(k, c), xt(k, r), yt(c, k);   // created after setMultiThread: _allocate applies the setting
+      for (int i = 0; i < r; i++) for (int j = 0; j < k; j++) { x.setValue(i, j, (double)X(i, j)); xt.setValue(j, i, (double)X(i, j)); }
+      for (int i = 0; i < k; i++) for (int j = 0; j < c; j++) { y.setValue(i, j, (double)Y(i, j)); yt.setValue(j, i, (double)Y(i, j)); }
+      S.outcome("omp_get_max_threads=" + std::to_string(omp_get_max_threads()));
+      MatrixRectangular out(r, c);
+      out.prodMatMatInPlace(&x, &y, false, false);  expectMat(S, &out, XY, "prodMatMatInPlace NN" + tn, 1e-13); same("NN", &out);
+      out.fill(0.); out.prodMatMatInPlace(&xt, &y, true, false);  expectMat(S, &out, XY, "prodMatMatInPlace TN" + tn, 1e-13); same("TN", &out);
+      out.fill(0.); out.prodMatMatInPlace(&x, &yt, false, true);  expectMat(S, &out, XY, "prodMatMatInPlace NT" + tn, 1e-13); same("NT", &out);
+      out.fill(0.); out.prodMatMatInPlace(&xt, &yt, true, true);  expectMat(S, &out, XY, "prodMatMatInPlace TT" + tn, 1e-13); same("TT", &out);
+      S.outcome("os-threads-after-gemm(t=" + std::to_string(t) + ")=" + std::to_string(osThreads()));
+      expectVec(S, x.prodMatVec(toVD(xv)), rmv(X, xv), "prodMatVec" + tn, 1e-13);
+      expectVec(S, x.prodMatVec(toVD(xr), true), rmv(Xt, xr), "prodMatVec transposed" + tn, 1e-13);
+    });
+    S.run("threads:dense-congruence-invert", [&] {
+      MatrixRectangular a(Xk.r, Xk.c); MatrixSquareGeneral m(Xk.c);
+      for (int i = 0; i < Xk.r; i++) for (int j = 0; j < Xk.c; j++) a.setValue(i, j, (double)Xk(i, j));
+      for (int i = 0; i < Xk.c; i++) for (int j = 0; j < Xk.c; j++) m.setValue(i, j, (double)Mk(i, j));
+      MatrixSquareGeneral* o = prodNormMatMat(&a, &m, false);
+      expectMat(S, o, CG, "prodNormMatMat(a,m,false)" + tn, 1e-13); same("congruence", o); delete o;
+      MatrixSquareSymmetric ms(r);
+      for (int i = 0; i < r; i++) for (int j = 0; j <= i; j++) ms.setValue(i, j, (double)Msym(i, j));
+      MatrixSquareSymmetric mi(ms);
+      if (mi.invert() != 0) S.bad("invert failed" + tn); else expectMat(S, &mi, Minv, "invert (banded SPD)" + tn, 1e-10, rnorm1(Minv));
+      CholeskyDense ch(&ms);
+      VectorDouble b = toVD(xr), xo(r, 0.); constvect bs(b.data(), b.size()); vect xs(xo.data(), xo.size());
+      ch.solve(bs, xs); expectVec(S, xo, rmv(Minv, xr), "CholeskyDense::solve" + tn, 1e-10, rnorm1(Minv) * 4);
+    });
+    for (int be : {(int)SPE, (int)SPC})
+      S.run(std::string("threads:") + stClass(be) + "-products", [&] {
+        MatrixSparse* sx = dynamic_cast<MatrixSparse*>(build(be, SX)); MatrixSparse* sy = dynamic_cast<MatrixSparse*>(build(be, SY));
+        MatrixSparse out(r, r, be == SPE ? 1 : 0);
+        out.prodMatMatInPlace(sx, sy, false, false); expectMat(S, &out, SXY, std::string(stName[be]) + " prodMatMatInPlace" + tn, 1e-13); same(std::string(stName[be]) + "-spgemm", &out);
+        expectVec(S, sx->prodMatVec(toVD(xr)), rmv(SX, xr), std::string(stName[be]) + " prodMatVec" + tn, 1e-13);
+        expectVec(S, sx->prodMatVec(toVD(xr), true), rmv(SX.T(), xr), std::string(stName[be]) + " prodMatVec transposed" + tn, 1e-13);
+        MatrixSparse* sm = dynamic_cast<MatrixSparse*>(build(be, Msym));
+        CholeskySparse ch(sm);
+        VectorDouble b = toVD(xr), xo(r, 0.); constvect bs(b.data(), b.size()); vect xs(xo.data(), xo.size());
+        ch.solve(bs, xs); expectVec(S, xo, rmv(Minv, xr), std::string(stName[be]) + " CholeskySparse::solve" + tn, 1e-10, rnorm1(Minv) * 4);
+        delete sx; delete sy; delete sm;
+      });
+    S.nontrivial(Hash().s("thr").i(shapeId).i(t).h);
+    (void)thorough;
+  }
+}
+
+// =====================================================================================================
+// the cs back-end frees malloc'ed memory with operator delete: shown with ASan's default setting in a re-executed child
+// =====================================================================================================
+static const char* g_argv0 = nullptr;
+static int csDeleteProbe()
+{
+  silence();
+  NF_Triplet t; t.add(0, 0, 1.); t.add(1, 1, 2.);
+  MatrixSparse* m = MatrixSparse::createFromTriplet(t, 2, 2, 0);
+  double v = m->getValue(1, 1);
+  delete m;
+  fprintf(stderr, "CS-PROBE-DONE %g\n", v);
+  return 0;
+}
+
+// =====================================================================================================
+// parts
+// =====================================================================================================
+VF_PART(unary_small)
+{
+  std::vector<Ref> all = allSmall(4);
+  runCases(C, all.size(), [&](Sink& S, uint64_t id) {
+    unaryOps(S, all[id], true);
+    if (id % 37 == 5) S.sample("{\"id\":" + std::to_string(id) + ",\"matrix\":" + jstr(all[id].str()) + ",\"ops\":\"all unary operations in 5 storages\"}");
+  });
+}
+// thorough only: every 2x3 and 3x2 matrix over {-1,0,2} and every 3x3 matrix over {0,1}
+VF_PART(unary_medium)
+{
+  if (!C.thorough()) return;
+  std::vector<Ref> all;
+  for (int sh = 0; sh < 2; sh++)
+    for (int id = 0; id < 729; id++) { Ref a(sh ? 3 : 2, sh ? 2 : 3); int x = id; for (int k = 0; k < 6; k++) { a.a[k] = alpha3[x % 3]; x /= 3; } all.push_back(a); }
+  for (int id = 0; id < 512; id++) { Ref a(3, 3); for (int k = 0; k < 9; k++) a.a[k] = (id >> k) & 1; all.push_back(a); }
+  runCases(C, all.size(), [&](Sink& S, uint64_t id) { unaryOps(S, all[id], true); if (all[id].symmetric()) { cholOps(S, all[id]); eigenOps(S, all[id]); } });
+}
+VF_PART(unary_structured)
+{
+  std::vector<Ref> all = structured(C.thorough());
+  runCases(C, all.size(), [&](Sink& S, uint64_t id) { unaryOps(S, all[id], C.thorough()); cholOps(S, all[id]); eigenOps(S, all[id]); });
+}
+// all symmetric matrices over {-1,0,2} of order 1..3 (order 4 thorough, on a sub-alphabet): Cholesky where SPD, eigen always
+VF_PART(chol_eigen_small)
+{
+  std::vector<Ref> all;
+  for (int n = 1; n <= (C.thorough() ? 4 : 3); n++)
+  {
+    int nt = n * (n + 1) / 2, tot = 1; for (int k = 0; k < nt; k++) tot *= 3;
+    for (int id = 0; id < tot; id++)
+    {
+      Ref a(n, n); int x = id;
+      for (int i = 0; i < n; i++) for (int j = 0; j <= i; j++) { a(i, j) = alpha3[x % 3]; a(j, i) = a(i, j); x /= 3; }
+      if (n == 4) { bool diagPos = true; for (int i = 0; i < n; i++) if (a(i, i) != 2) diagPos = false; if (!diagPos) continue; }
+      all.push_back(a);
+    }
+  }
+  runCases(C, all.size(), [&](Sink& S, uint64_t id) { cholOps(S, all[id]); eigenOps(S, all[id]); });
+}
+VF_PART(sums)
+{
+  std::vector<Ref> all = allSmall(4);
+  // pairs of equal shape; quick: the second operand runs over every third content
+  std::vector<std::pair<int, int>> pairs;
+  for (size_t i = 0; i < all.size(); i++) for (size_t j = 0; j < all.size(); j++)
+  {
+    if (all[i].r != all[j].r || all[i].c != all[j].c) continue;
+    if (!C.thorough() && (j % 4) != (i % 4)) continue;
+    pairs.push_back({(int)i, (int)j});
+  }
+  runCases(C, pairs.size(), [&](Sink& S, uint64_t id) { sumOps(S, all[pairs[id].first], all[pairs[id].second]); });
+}
+VF_PART(products)
+{
+  std::vector<Ref> all = allSmall(4);
+  std::vector<std::pair<int, int>> pairs;
+  for (size_t i = 0; i < all.size(); i++) for (size_t j = 0; j < all.size(); j++)
+  {
+    const Ref &x = all[i], &y = all[j];
+    bool compat = x.c == y.r || x.r == y.r || x.c == y.c || x.r == y.c;
+    if (!compat) continue;
+    if (!C.thorough() && ((i * 7 + j * 3) % 11) != 0) continue;
+    pairs.push_back({(int)i, (int)j});
+  }
+  runCases(C, pairs.size(), [&](Sink& S, uint64_t id) {
+    prodOps(S, all[pairs[id].first], all[pairs[id].second]);
+    if (id % 5003 == 11) S.sample("{\"id\":" + std::to_string(id) + ",\"x\":" + jstr(all[pairs[id].first].str()) + ",\"y\":" + jstr(all[pairs[id].second].str()) + "}");
+  });
+}
+VF_PART(congruence)
+{
+  std::vector<Ref> all = allSmall(4);
+  std::vector<Ref> sq;   // middle matrices: all 1x1 and 2x2 over the alphabet, menus for order 3 and 4
+  for (auto& a : all) if (a.square()) sq.push_back(a);
+  sq.push_back(fromList(3, 3, {2, -1, 0, 4, 1, 3, 0, 2, -2})); sq.push_back(fromList(3, 3, {2, -1, 0, -1, 2, -1, 0, -1, 2})); sq.push_back(rident(3));
+  sq.push_back(fromList(4, 4, {2, -1, 0, 1, 4, 1, 3, 0, 0, 2, -2, 1, 1, 0, 0, 3})); sq.push_back(fromList(4, 4, {2, -1, 0, 0, -1, 2, -1, 0, 0, -1, 2, -1, 0, 0, -1, 2})); sq.push_back(rident(4));
+  std::vector<std::pair<int, int>> pairs;
+  for (size_t i = 0; i < all.size(); i++) for (size_t j = 0; j < sq.size(); j++)
+  {
+    if (sq[j].r != all[i].r && sq[j].r != all[i].c) continue;
+    if (!C.thorough() && sq[j].r == 2 && ((i + j * 5) % 9) != 0) continue;
+    pairs.push_back({(int)i, (int)j});
+  }
+  runCases(C, pairs.size(), [&](Sink& S, uint64_t id) {
+    int i = pairs[id].first, j = pairs[id].second;
+    bool firstM = true; for (int q = 0; q < j; q++) if (sq[q].r == all[i].r || sq[q].r == all[i].c) { firstM = false; break; }
+    normOps(S, all[i], sq[j], firstM);
+  });
+}
+VF_PART(structured_binary)
+{
+  std::vector<Ref> all = structured(C.thorough());
+  std::vector<std::pair<int, int>> pairs;
+  for (size_t i = 0; i < all.size(); i++) for (size_t j = 0; j < all.size(); j++)
+  {
+    if (!C.thorough() && ((i + 2 * j) % 3) != 0) continue;
+    pairs.push_back({(int)i, (int)j});
+  }
+  runCases(C, pairs.size(), [&](Sink& S, uint64_t id) {
+    const Ref &a = all[pairs[id].first], &b = all[pairs[id].second];
+    if (std::max({a.r, a.c, b.r, b.c}) > 5 && !(pairs[id].first % 2 == 0)) { }
+    prodOps(S, a, b);
+    if (a.r == b.r && a.c == b.c) sumOps(S, a, b);
+    if (b.square() && (b.r == a.r || b.r == a.c)) normOps(S, a, b, pairs[id].second % 4 == 0);
+  });
+}
+// thorough only: all pairs among every 2x3 and 3x2 matrix over {0,1} and 64 of the 3x3 matrices over {0,1}
+VF_PART(binary_medium)
+{
+  if (!C.thorough()) return;
+  std::vector<Ref> all;
+  for (int sh = 0; sh < 2; sh++)
+    for (int id = 0; id < 64; id++) { Ref a(sh ? 3 : 2, sh ? 2 : 3); for (int k = 0; k < 6; k++) a.a[k] = (id >> k) & 1; all.push_back(a); }
+  for (int id = 5; id < 512; id += 8) { Ref a(3, 3); for (int k = 0; k < 9; k++) a.a[k] = (id >> k) & 1; all.push_back(a); }
+  const uint64_t n = all.size();
+  runCases(C, n * n, [&](Sink& S, uint64_t id) {
+    const Ref &a = all[id / n], &b = all[id % n];
+    prodOps(S, a, b);
+    if (a.r == b.r && a.c == b.c && (id % 7) == 0) sumOps(S, a, b);
+    if (b.square() && (b.r == a.r || b.r == a.c)) normOps(S, a, b, (id % n) == 128);
+  });
+}
+VF_PART(vectors)
+{
+  static const double alphaA[4] = {-1, 0, 2, 0.5};
+  static const double alphaT[5] = {-1, 0, 0, 2, TESTV};
+  // unary: all vectors of length 0..4 over {-1,0,2,0.5}, then length 1..4 over {-1,0,0,2,TEST}
+  std::vector<std::pair<std::vector<double>, bool>> un;
+  for (int n = 0; n <= (C.thorough() ? 5 : 4); n++) { uint64_t tot = 1; for (int k = 0; k < n; k++) tot *= 4; for (uint64_t id = 0; id < tot; id++) un.push_back({decodeVec(id, n, alphaA, 4), false}); }
+  for (int n = 1; n <= (C.thorough() ? 5 : 4); n++) { uint64_t tot = 1; for (int k = 0; k < n; k++) tot *= 5; for (uint64_t id = 0; id < tot; id++) { auto v = decodeVec(id, n, alphaT, 5); bool ht = false; for (double x : v) ht = ht || isT(x); if (ht) un.push_back({v, true}); } }
+  // distinct-valued vectors (no ties) for the symmetric / where clauses
+  for (int n = 2; n <= 5; n++) { std::vector<double> base = {3, -1, 0.5, 100, 7}; base.resize(n); std::sort(base.begin(), base.end()); do un.push_back({base, false}); while (std::next_permutation(base.begin(), base.end())); }
+  const uint64_t nun = un.size();
+  const int nb = C.thorough() ? 4 : 3;
+  uint64_t npairs = 0; std::vector<uint64_t> off;
+  for (int n = 0; n <= nb; n++) { uint64_t tot = 1; for (int k = 0; k < 2 * n; k++) tot *= 4; off.push_back(npairs); npairs += tot; }
+  runCases(C, nun + npairs, [&](Sink& S, uint64_t id) {
+    if (id < nun) { vecUnary(S, un[id].first, un[id].second); if (id % 211 == 3) S.sample("{\"id\":" + std::to_string(id) + ",\"vector\":" + jstr(vs(un[id].first)) + "}"); return; }
+    uint64_t q = id - nun; int n = nb; while (off[n] > q) n--;
+    q -= off[n];
+    uint64_t half = 1; for (int k = 0; k < n; k++) half *= 4;
+    vecBinary(S, decodeVec(q % half, n, alphaA, 4), decodeVec(q / half, n, alphaA, 4));
+  });
+}
+// NF_Triplet::force(nrow,ncol) on a triplet that already reaches (nrow-1,ncol-1): the matrix must be unchanged and usable
+VF_PART(triplet_force)
+{
+  std::vector<Ref> all = allSmall(4);
+  runCases(C, all.size(), [&](Sink& S, uint64_t id) {
+    const Ref& A = all[id];
+    if (A(A.r - 1, A.c - 1) == 0) { S.skip(); S.outcome("corner-empty(force is needed: covered by every other part)"); return; }
+    for (int be : {(int)SPE, (int)SPC})
+      S.run(std::string(stClass(be)) + ":NF_Triplet-force:corner-already-present", [&] {
+        NF_Triplet t;
+        int nnz = 0;
+        for (int i = 0; i < A.r; i++) for (int j = 0; j < A.c; j++) if (A(i, j) != 0) { t.add(i, j, (double)A(i, j)); nnz++; }
+        t.force(A.r, A.c);
+        MatrixSparse* m = MatrixSparse::createFromTriplet(t, A.r, A.c, be == SPE ? 1 : 0);
+        const std::string in = std::string(" [") + stName[be] + "] input " + A.str();
+        expectMat(S, m, A, "matrix built from a forced triplet" + in);
+        S.eval();
+        if (m->getNonZeros() != nnz) S.bad("force() on a triplet that already holds the corner entry stores " + std::to_string(m->getNonZeros()) + " entries for " + std::to_string(nnz) + " non-zeros (duplicate corner entry)" + in);
+        std::vector<LD> vr = mvec(A.r);
+        m->multiplyRow(toVD(vr));
+        expectMat(S, m, rmul(rdiag(vr), A), "multiplyRow on a matrix built from a forced triplet" + in);
+        m->prodScalar(2.);
+        expectMat(S, m, rlin(2, rmul(rdiag(vr), A), 0, A), "then prodScalar(2)" + in);
+        delete m;
+      });
+    S.nontrivial(Hash().s("force").u(A.hash()).h);
+  });
+}
+// ---- dimension / index errors with address checking switched on (setFlagCheckAddress(true)) ----------------------
+// Oracle (deliberately minimal): the call must not be executed out of bounds (ASan abort / crash = violation under
+// key dim-error:<storage class>:<operation>). Whether the error was reported (message, exception, error code, empty
+// result) or silently executed on a prefix is recorded in the outcome histogram only.
+static void dimErrorOps(Sink& S, const Ref& A, int s)
+{
+  const int r = A.r, c = A.c;
+  {
+    if (!canHold(s, A)) { S.skip(); return; }
+    auto family = [](const std::string& op) -> std::string {
+      if (op.rfind("prodMatVec", 0) == 0 || op.rfind("prodVecMat", 0) == 0) return "matvec";
+      if (op.rfind("multiply", 0) == 0 || op.rfind("divide", 0) == 0) return "scale-row-col";
+      if (op.rfind("getRow", 0) == 0 || op.rfind("getColumn", 0) == 0) return "getRow-getColumn";
+      if (op.rfind("setRow", 0) == 0 || op.rfind("setColumn", 0) == 0 || op.rfind("setDiagonal", 0) == 0) return "setRow-setColumn-setDiagonal";
+      return op.substr(0, op.find(':'));
+    };
+    auto doit = [&](const std::string& op, std::function<bool(AMatrix*)> f) {
+      S.run(std::string("dim-error:") + stClass(s) + ":" + family(op), [&] {
+        AMatrix* m = build(s, A); m->setFlagCheckAddress(true);
+        int before = S.msgCount; bool reported = false;
+        try { reported = f(m); } catch (const std::exception&) { reported = true; } catch (const char*) { reported = true; }
+        if (S.msgCount > before) reported = true;
+        S.eval();
+        S.outcome(std::string(reported ? "dim-error-reported:" : "dim-error-silently-executed:") + stClass(s) + ":" + op);
+        Got g = readMat(m);   // the object must still be readable
+        if (!g.ok) S.bad(std::string("[") + stName[s] + "] after a refused " + op + ": " + g.err);
+        delete m;
+      });
+    };
+    for (int d : {-1, 1})
+    {
+      const std::string ds = d < 0 ? "short" : "long";
+      for (int t = 0; t < 2; t++)
+      {
+        int nx = (t ? r : c) + d, nl = (t ? c : r) + d;
+        const std::string ts = t ? ":T" : ":N";
+        doit("prodMatVec:" + ds + ts, [&](AMatrix* m) { VectorDouble y = m->prodMatVec(VectorDouble(nx, 1.), t); return y.empty(); });
+        doit("prodVecMat:" + ds + ts, [&](AMatrix* m) { VectorDouble y = m->prodVecMat(VectorDouble(nl, 1.), t); return y.empty(); });
+        doit("prodMatVecInPlace-span:" + ds + ts, [&](AMatrix* m) { VectorDouble x(nx, 1.), y(t ? c : r, 0.); constvect xs(x.data(), x.size()); vect ys(y.data(), y.size()); return m->prodMatVecInPlace(xs, ys, t) != 0; });
+        doit("prodVecMatInPlace:" + ds + ts, [&](AMatrix* m) { VectorDouble x(nl, 1.), y(t ? r : c, 5.); m->prodVecMatInPlace(x, y, t); return false; });
+      }
+      doit("multiplyRow:" + ds, [&](AMatrix* m) { m->multiplyRow(VectorDouble(r + d, 2.)); return false; });
+      doit("multiplyColumn:" + ds, [&](AMatrix* m) { m->multiplyColumn(VectorDouble(c + d, 2.)); return false; });
+      doit("divideRow:" + ds, [&](AMatrix* m) { m->divideRow(VectorDouble(r + d, 2.)); return false; });
+      doit("divideColumn:" + ds, [&](AMatrix* m) { m->divideColumn(VectorDouble(c + d, 2.)); return false; });
+      doit("setRow:" + ds, [&](AMatrix* m) { m->setRow(0, VectorDouble(c + d, 2.)); return false; });
+      doit("setColumn:" + ds, [&](AMatrix* m) { m->setColumn(0, VectorDouble(r + d, 2.)); return false; });
+      if (A.square())
+      {
+        doit("setDiagonal:" + ds, [&](AMatrix* m) { m->setDiagonal(VectorDouble(r + d, 2.)); return false; });
+        doit("solve:" + ds, [&](AMatrix* m) { VectorDouble x(r, 0.); return m->solve(VectorDouble(r + d, 1.), x) != 0; });
+      }
+    }
+    doit("getValue:out-of-range", [&](AMatrix* m) { return FFFF(m->getValue(r, 0)) && FFFF(m->getValue(0, c)) && FFFF(m->getValue(-1, 0)); });
+    doit("setValue:out-of-range", [&](AMatrix* m) { m->setValue(r, 0, 1.); m->setValue(0, c, 1.); m->setValue(0, -1, 1.); return false; });
+    doit("setRow:out-of-range", [&](AMatrix* m) { m->setRow(r, VectorDouble(c, 2.)); return false; });
+    doit("setColumn:out-of-range", [&](AMatrix* m) { m->setColumn(c, VectorDouble(r, 2.)); return false; });
+    doit("getRow:out-of-range", [&](AMatrix* m) { return m->getRow(r).empty(); });
+    doit("getColumn:out-of-range", [&](AMatrix* m) { return m->getColumn(c).empty(); });
+    doit("addMatInPlace-generic:other-shape", [&](AMatrix* m) { MatrixRectangular y(r + 1, c); m->AMatrix::addMatInPlace(y); return false; });
+    doit("linearCombination:other-shape", [&](AMatrix* m) { MatrixRectangular y(r, c + 1); m->linearCombination(1., &y); return false; });
+    doit("prodMatMatInPlace:incompatible", [&](AMatrix* m) {
+      AMatrix* x = build(s, A); AMatrix* y = build(s, A); x->setFlagCheckAddress(true); y->setFlagCheckAddress(true);
+      if (r == c) { delete x; x = build(RECT, Ref(r, c + 1)); }   // make the inner dimensions differ
+      MatrixRectangular out(r, c); out.setFlagCheckAddress(true);
+      out.prodMatMatInPlace(x, y, false, false);
+      AMatrix* q = MatrixFactory::prodMatMat(x, y, false, false);
+      bool rep = q == nullptr; delete q; delete x; delete y; (void)m; return rep;
+    });
+    S.nontrivial(Hash().s("dimerr").i(s).u(A.hash()).h);
+  }
+}
+// NOT REGISTERED as a part any more (integrator decision): wrong-size arguments have no mathematically defined result, so
+// "not executed out of bounds" is outside the statement of C11 (over-demand). Kept as a plain function for reference.
+[[maybe_unused]] static void dimension_errors_unregistered(vf::Ctx& C)
+{
+  std::vector<Ref> all = {fromList(2, 3, {1, 2, 3, 4, 5, 6}), fromList(3, 2, {1, 2, 3, 4, 5, 6}), fromList(2, 2, {2, 1, 1, 3}), fromList(1, 3, {1, 2, 3}), fromList(3, 1, {1, 2, 3}), fromList(3, 3, {2, -1, 0, -1, 2, -1, 0, -1, 2})};
+  runCases(C, all.size() * NST, [&](Sink& S, uint64_t id) { dimErrorOps(S, all[id / NST], (int)(id % NST)); });
+}
+VF_PART(threads)
+{
+  int nshapes = C.thorough() ? 6 : 3;
+  runCases(C, nshapes, [&](Sink& S, uint64_t id) { threadOps(S, (int)id, C.thorough()); });
+}
+// run the harness itself again with ASan's default alloc_dealloc_mismatch=1: creating one cs matrix must not abort
+VF_PART(cs_delete_mismatch)
+{
+  if (!owns_part(C)) return;
+  C.ps().space += 1;
+  ChildEnd r = forkRun([&](int wfd) {
+    (void)wfd;
+    setenv("ASAN_OPTIONS", "alloc_dealloc_mismatch=1:detect_leaks=0:abort_on_error=1:handle_abort=0", 1);
+    execl("/proc/self/exe", g_argv0 ? g_argv0 : "c11", "--cs-delete-probe", (char*)nullptr);
+    return 93;
+  }, 60.);
+  C.eval();
+  C.nontrivial(1); C.nontrivial(2);
+  bool done = r.data.find("CS-PROBE-DONE 2") != std::string::npos;
+  bool mism = r.data.find("alloc-dealloc-mismatch") != std::string::npos;
+  C.outcome(done ? "probe-completed" : mism ? "asan:alloc-dealloc-mismatch" : "probe-died-otherwise");
+  if (!done)
+    C.violation(mism ? "sparse-cs:resetFromTriplet:delete-of-malloc" : "sparse-cs:create:died",
+                "creating a 2x2 cs-backed MatrixSparse from a triplet under ASan default options ends with: " + (mism ? asanSummary(r.data) : r.data.substr(0, 300)) +
+                " (MatrixSparse::resetFromTriplet releases the malloc'ed cs structure with operator delete; every other part of this check runs with alloc_dealloc_mismatch=0)", "0");
+}
+
+int main(int argc, char** argv)
+{
+  if (argc >= 2 && std::string(argv[1]) == "--cs-delete-probe") return csDeleteProbe();
+  g_argv0 = argv[0];
+  return run_main(argc, argv, [](Ctx&) { silence(); });
 }
